@@ -59,6 +59,7 @@ def run(rep, tier, seed):
     if not nesc or not ndiff or ndiff == nesc:
         raise vlib.ToolError(f"family escw vacuous: {rep.notes['escw']}")
     varref(rep, tier, seed)
+    reuse_own_attrs(rep)
     interp.negative_control(rep, "scope", "LeakScopeOnError", {"ScopeBalanced", "ResultIsIdeal", "CleanAtEnd"}, MaxNodes=3)
     interp.negative_control(rep, "scope", "LateEnv", {"ResultIsIdeal"}, MaxNodes=3)
     rep.notes["rule"] = ("every document of the scope / reuse families within MaxNodes, enumerated by TLC; case = "
@@ -120,6 +121,42 @@ def varref(rep, tier, seed):
         else:
             rep.traces += 1
     rep.bounds["varref"] = {"MaxLen": 5 if tier == "thorough" else 4, "cases": len(cases)}
+
+
+def reuse_own_attrs(rep):
+    """every attribute of a <reuse> is a variable for its instance - also the ones that have a
+    meaning of their own on the reuse element (href, x, y) - and only for its instance"""
+    import geom
+    cases = []
+    for j, (rattrs, shadow) in enumerate([('x="5" y="7"', ""), ('y="2"', "x"), ('x="4"', "y"), ("", "xy"), ('x="1" y="1" k="9"', "")]):
+        g_open = {"": "", "x": '<g x="3">', "y": '<g y="8">', "xy": '<g x="3" y="8">'}[shadow]
+        g_close = "</g>" if shadow else ""
+        xml = (f'<svg><var x="OUT" y="OUT2" href="OUT3" k="K0"/><specs><rect id="t" wh="1" data-v="$x|$y|$href|$k"/></specs>'
+               f'{g_open}<reuse id="p" href="#t" {rattrs}/>{g_close}<rect id="q" wh="1" data-v="$x|$y|$href|$k"/></svg>')
+        want = {"x": "OUT", "y": "OUT2", "href": "#t", "k": "K0"}
+        if "x" in shadow:
+            want["x"] = "3"
+        if "y" in shadow:
+            want["y"] = "8"
+        for m in __import__("re").finditer(r'(\w+)="([^"]*)"', rattrs):
+            want[m.group(1)] = m.group(2)
+        cases.append({"k": f"ro-{j}", "xml": xml, "cfg": {}, "trace": False, "want": "|".join(want[n] for n in ("x", "y", "href", "k"))})
+    res = vlib.run_cases([{k: v for k, v in c.items() if k != "want"} for c in cases])
+    for c in cases:
+        rr = res[c["k"]]
+        rep.case(c["xml"])
+        if rr["status"] != "ok":
+            rep.violation("reuse-own-attrs:not-ok", {"xml": c["xml"], "err": vlib.trunc(rr.get("err"))})
+            continue
+        p_, q_ = geom.find_by_id(rr["out"], "p"), geom.find_by_id(rr["out"], "q")
+        got_p = p_.attrs.get("data-v") if p_ is not None else None
+        got_q = q_.attrs.get("data-v") if q_ is not None else None
+        if got_p != c["want"] or got_q != "OUT|OUT2|OUT3|K0":
+            rep.violation("reuse-own-attrs:value", {"xml": c["xml"], "instance_sees": got_p, "expected": c["want"], "after_it": got_q,
+                                                    "expected_after": "OUT|OUT2|OUT3|K0",
+                                                    "detail": "the attributes of a <reuse> (href, x, y included) are variables of its instance, and of nothing else"})
+        else:
+            rep.traces += 1
 
 
 def replay(path):
